@@ -263,7 +263,11 @@ func (fr *Frame) enterLoop(li *loopInfo, preds []*ssa.BasicBlock) {
 	env := fr.loopEnv(li, cur, nil)
 	if li.spec != nil {
 		for _, cl := range li.spec.Invariants {
-			ex.addFact(Implies(fr.cur, fr.evalBool(cl.Expr, env)))
+			inv := fr.evalBool(cl.Expr, env)
+			ex.addFact(Implies(fr.cur, inv))
+			if len(cl.Props) > 0 {
+				ex.hints = append(append([]hintT{}, ex.hints...), hintT{Implies(fr.cur, inv), ex.curBlk})
+			}
 		}
 		for _, cl := range li.spec.Decreases {
 			li.variantAtHead = append(li.variantAtHead, fr.evalTerm(cl.Expr, env))
